@@ -1,11 +1,13 @@
 import TallyVerif.Driver.Util
 import TallyVerif.Driver.Classify
+import TallyVerif.Driver.Analyze
 /-! `tvdrv`: one JSON object per line in, one canonical JSON object per line out. -/
 open Lean TallyVerif.Driver
 
 def dispatch (j : Json) : Json :=
   match jstr j "op" with
   | "classify" => handleClassify j
+  | "analyze" => handleAnalyze j
   | "ping" => obj [("pong", .bool true)]
   | op => obj [("err", .str s!"unknown op {op}")]
 
